@@ -13,7 +13,7 @@
 From Coq Require Import List Bool ZArith QArith.
 From GV Require Import Base.Outcome Model.GState Model.Query Model.Dijkstra.
 From GV Require Import Spec.ShortestPathDef Spec.ShortestPathCheck Proofs.ShortestPathOk.
-From GV Require Import Proofs.DijkstraLoopOk Proofs.DijkstraModelOk.
+From GV Require Import Base.AMap Proofs.DijkstraLoopOk Proofs.DijkstraModelOk Proofs.DijkstraNamesOk.
 Import ListNotations.
 
 (* ---------------------------------------------------------------- (A) the model *)
@@ -41,6 +41,28 @@ Theorem C04_model_fast_path_total : forall (T A : Type) (g : gstate T A) (weight
   exists r, dijkstra_basic g weighted src = Ok r /\
             distances_ok g weighted src None None r /\ forall t i, In (t, i) r -> sp_paths i = [].
 Proof. exact model_dijkstra_basic_total. Qed.
+
+(* The entry point on node names: with coherent name indexes, single_source from an
+   existing node (and to an existing target, if any) returns Ok, and its map is exactly
+   the name translation of an index-level answer [r] meeting the per-call statement. *)
+Theorem C04_model_single_source_names : forall (T A : Type) (teqb : T -> T -> bool),
+  (forall a b, teqb a b = true <-> a = b) ->
+  forall (g : gstate T A) (weighted : bool),
+  wf_adj g -> names_wf teqb g -> nonneg (wgraph_of weighted (successors_vec g)) ->
+  forall source target cutoff fo wp si,
+  lookup teqb source (nodes_map g) = Some si ->
+  (forall t, target = Some t -> exists i, lookup teqb t (nodes_map g) = Some i) ->
+  cutoff_exceeded cutoff 0 = false ->
+  exists m ti r,
+    single_source teqb g weighted source target cutoff fo wp = Ok m /\
+    match target with
+    | Some t => exists i, lookup teqb t (nodes_map g) = Some i /\ ti = Some i
+    | None => ti = None
+    end /\
+    result_ok (wgraph_of weighted (successors_vec g)) si ti cutoff fo wp (answer_of r) /\
+    (forall k i, In (k, i) r -> exists x i', name g k = Some x /\ tr_info g i i' /\ lookup teqb x m = Some i') /\
+    (forall x i', lookup teqb x m = Some i' -> exists k i, In (k, i) r /\ name g k = Some x /\ tr_info g i i').
+Proof. exact @single_source_names_ok. Qed.
 
 (* Partial correctness needs less: any [Ok] answer is right as soon as the costs are
    non-negative and there is one adjacency row per node. *)
